@@ -5,8 +5,6 @@ from glue.core.component import DaskComponent
 from glue.core.coordinate_helpers import world_axis_dependencies
 from glue.utils import unbroadcast, broadcast_arrays_minimal
 
-# TODO: cache needs to be updated when links are removed/changed
-
 __all__ = ['compute_fixed_resolution_buffer']
 
 
